@@ -301,7 +301,7 @@ def _w_find_views(*a, **kw):
         call['dict'] = live.snapshot()
         if call['key'] is not None and call['key'] in call['dict'] and call['slots']:
             live.key_epoch[call['key']] = live.epoch       # (re)written by this call
-        call['prechange'] = live.prechange(call['key'], call['q'][2])
+        call['prechange_spec'] = live.changed_at.get(id(call['q'][2]), 0) > 0
     return res
 
 
@@ -525,12 +525,6 @@ class Live:
         self.applied.append(r)
         return self.modlog[n0:], sp
 
-    def prechange(self, key, ctx_spec):
-        """the entry under `key` was written before the resolution order of its context specification was changed by
-        an interface-change operation (and no clear happened since): the application changed what the key MEANS —
-        the input class excluded by `Cfg.KeyFaithful`"""
-        return key in self.snapshot_raw() and self.key_epoch.get(key, 0) < self.changed_at.get(id(ctx_spec), 0)
-
     def do_ifc(self, op, specs):
         before = {id(s): tuple(s.__sro__) for s in specs}
         apply_ifc(op)
@@ -602,16 +596,14 @@ def stale_entries(live, trace):
     seen, out = {}, []
     for t in trace:
         for c in t.get('calls', []):
-            seen[c['key']] = c['q']
+            seen[c['key']] = (c['q'], c.get('full') or slots_of(c['q']))     # the LATEST lookup that used the key
     cache = live.snapshot_raw()
     for key in list(cache.keys()):
-        q = seen.get(key)
-        if q is None:
+        if key not in seen:
             out.append('entry under a key no lookup used')
             continue
-        if live.prechange(key, q[2]):
-            continue                                        # its key changed meaning (interface change, no clear since)
-        cold = [v for v in (live.o_registered(s[0], s[1], s[2]) for s in slots_of(q)) if v is not None]
+        q, full = seen[key]
+        cold = [v for v in (live.o_registered(s[0], s[1], s[2]) for s in full) if v is not None]
         if [id(x) for x in cache[key]] != [id(x) for x in cold]:
             out.append(_qname(q))
     return sorted(set(out))
@@ -619,13 +611,10 @@ def stale_entries(live, trace):
 
 def check_lists(live, i, calls, viol):
     """the view list found depends only on the registrations in force and the interfaces the request and the context
-    provide AT THAT MOMENT: every lookup that scanned (or hit an entry whose key still means the same) returns the cold
-    scan computed here from the current resolution orders and the adapter registry — independent of any other
-    application in this process"""
+    provide AT THAT MOMENT: every lookup — scanned or answered from the cache — returns the cold scan computed here
+    from the current resolution orders and the adapter registry, independent of any other application in this process"""
     for c in calls:
         if c.get('inject') is not None or c.get('window') or 'res' not in c:
-            continue
-        if not c['slots'] and c.get('prechange'):
             continue
         cold = [v for v in (live.o_registered(s[0], s[1], s[2]) for s in c['full']) if v is not None]
         if [id(x) for x in c['res']] != [id(x) for x in cold]:
@@ -635,12 +624,6 @@ def check_lists(live, i, calls, viol):
                                    % (i, _qname(c['q']), 'scanned' if c['slots'] else 'from the cache',
                                       [getattr(x, '__name__', '?') for x in c['res']], [getattr(x, '__name__', '?') for x in cold])})
             return
-
-
-def excluded_warm(calls):
-    """a request answered from an entry that was cached before the application changed the interfaces of its context
-    class/instances without any registration (nothing told the registry): outside `Cfg.KeyFaithful`, see notes"""
-    return any((not c['slots']) and c.get('prechange') for c in calls)
 
 
 def mutated_results(live):
@@ -659,12 +642,9 @@ def _run_op(live, i, op, kind, before_regs, trace, viol):
                 if not fired:
                     check_lists(live, i, calls, viol)
                 if resp not in ok:
-                    if excluded_warm(calls):
-                        trace[-1]['excluded_warm_after_interface_change'] = True
-                    else:
-                        viol.append({'at': i, 'kind': 'response', 'impl': resp, 'expected': ok,
-                                     'detail': 'op %d: the live application answers %r, a freshly built application with the same registrations answers %r'
-                                               % (i, resp, ok)})
+                    viol.append({'at': i, 'kind': 'response', 'impl': resp, 'expected': ok,
+                                 'detail': 'op %d: the live application answers %r, a freshly built application with the same registrations answers %r'
+                                           % (i, resp, ok)})
             elif kind == 'ifc':
                 specs = {}
                 for c in live.calls:
@@ -1115,7 +1095,7 @@ def gen_case(rng, maxops=8):
                 ops.append({'op': 'get', 'req': dict(q)})
         elif r < 0.93:
             # what a context class / its instances provide changes between two requests; the next lookups come after a
-            # miss, after a clearing registration, or (counted, not judged: see notes) on a warm entry
+            # miss, after a clearing registration, or on a warm entry
             ops.append(gen_ifc(rng))
             if rng.random() < 0.5 and len(ops) < n:
                 ops.append({'op': 'reg', 'reg': aimed_reg(None)})
@@ -1291,8 +1271,8 @@ def features(case, info):
             f.add('odd_burst')
         if t['op'] == 'ifc':
             f.add('interface_change')
-        if t.get('excluded_warm_after_interface_change'):
-            f.add('EXCLUDED_warm_hit_after_interface_change')
+        if t['op'] == 'get' and any(c.get('prechange_spec') for c in t.get('calls', [])):
+            f.add('lookup_after_interface_change_of_its_context')
         if t['op'] == 'get' and t.get('accept_on_multiview'):
             f.add('accept_header_on_multiview')
     if collisions(trace):
@@ -1306,7 +1286,7 @@ def features(case, info):
     return f
 
 
-NONTRIVIAL = {'interface_change', 'same_context_and_name_through_two_request_ifaces', 'warm_hit', 'inject_scan', 'inject_probe', 'inject_write', 'lookup_inside_registration', 'registration_after_warmup'}
+NONTRIVIAL = {'interface_change', 'lookup_after_interface_change_of_its_context', 'same_context_and_name_through_two_request_ifaces', 'warm_hit', 'inject_scan', 'inject_probe', 'inject_write', 'lookup_inside_registration', 'registration_after_warmup'}
 
 
 def mixed_kind(m):
@@ -1478,7 +1458,6 @@ def run(ctx):
             'assumptions': ['CPython: attribute loads/stores, dict get/set and the GIL make each modelled step atomic; threading.Lock is a mutex',
                             'zope.interface adapter registry: registered()/register()/unregister() are atomic and read the current registrations; __sro__ is fixed while serving',
                             'one registrar at a time (configuration actions are executed by a single thread)',
-                            'a cache entry written before the application changed the interfaces of its context class/instances (no registration since) is outside the domain: its key changed meaning (Cfg.KeyFaithful); such warm hits are counted, not judged',
                             'the registrations (which adapter mutations a registration performs) are taken from the real register_view, logged at adapters.register/unregister'],
             'trusted_base': ['extract/c15.py (facts probed by running _find_views / Registry / Configurator of the tree under test)']}
 
